@@ -6,6 +6,28 @@ KB_TB = [
 ]
 
 SPECS = {
+    "C07": {
+        "coq_files": KB_FILES,
+        "runner_vo": "Run/KBucketRun.v",
+        "harness": [
+            {"component": "kb", "args": ["--focus", "c07"], "quick": 96, "thorough": 1600},
+            # structural invariants also under the IP filters; correspondence of that run belongs to C16
+            {"component": "kb", "args": ["--focus", "c16"], "quick": 48, "thorough": 400, "correspondence": False},
+        ],
+        "trusted_base": KB_TB,
+        "assumptions": ["time is an explicit argument of the model; the ordering conjunct assumes a monotone clock"],
+        "explanation": "inductive invariant of Model/KBucket.v over all operation lists + correspondence + direct structural monitor",
+    },
+    "C16": {
+        "coq_files": KB_FILES,
+        "runner_vo": "Run/KBucketRun.v",
+        "harness": [
+            {"component": "kb", "args": ["--focus", "c16"], "quick": 96, "thorough": 1600},
+        ],
+        "trusted_base": KB_TB,
+        "assumptions": ["the raw Entry API (AbsentEntry::insert, value_mut) bypasses the filters by its documentation and is excluded"],
+        "explanation": "subnet-count invariant of Model/KBucket.v with the IP filters over all operation lists + correspondence + direct recount monitor",
+    },
     "C08": {
         "coq_files": KB_FILES + ["Proofs/ClosestOrder.v"],
         "runner_vo": "Run/KBucketRun.v",
